@@ -24,6 +24,7 @@ pub struct ConfigType {
 ///
 /// It must start with a letter.
 /// It can only contain letters, numbers, and underscores.
+/// It can't be a Rust keyword, since it's used as a field name in the generated code.
 pub struct ConfigKey(String);
 
 impl std::fmt::Display for ConfigKey {
@@ -46,12 +47,18 @@ impl ConfigKey {
                 return Err(ConfigKeyValidationError::InvalidChar { key, invalid: c });
             }
         }
+        // Keywords pass all the checks above, but they aren't identifiers.
+        // We rely on the same parser used by `Self::ident`, to be sure that the two agree.
+        if syn::parse_str::<syn::Ident>(&key).is_err() {
+            return Err(ConfigKeyValidationError::Keyword { key });
+        }
         Ok(Self(key))
     }
 
     /// Convert the key into a valid Rust identifier.
     ///
-    /// Infallible, as the key is guaranteed to be a valid Rust identifier.
+    /// Infallible, as the key is guaranteed to be a valid Rust identifier:
+    /// `Self::new` has checked that it can be parsed as one.
     pub fn ident(&self) -> syn::Ident {
         syn::parse_str(&self.0).unwrap()
     }
@@ -105,6 +112,11 @@ pub(crate) enum ConfigKeyValidationError {
         `{key}` starts with `{first}` which is not a letter."
     )]
     InvalidStart { key: String, first: char },
+    #[error(
+        "Configuration keys can't be Rust keywords, since they are used as field names in the generated code.\n\
+        `{key}` is a keyword."
+    )]
+    Keyword { key: String },
     #[error(
         "Configuration keys can only contain letters, digits, and underscores.\n\
         `{key}` contains `{invalid}` which is not a letter, digit, or underscore."
